@@ -236,6 +236,11 @@ class Response:
                     util.reraise(exc_info[0], exc_info[1], exc_info[2])
             finally:
                 exc_info = None
+            # headers not sent yet: the new ones replace those of the
+            # earlier call (PEP 3333), they are not added to them
+            self.headers = []
+            self.response_length = None
+            self.upgrade = False
         elif self.status is not None:
             raise AssertionError("Response headers already set!")
 
